@@ -127,6 +127,8 @@ type analysis struct {
 	Sites   []siteInfo
 	Allow   *allowList
 	Skipped []string
+	// Generated: files with a "Code generated … DO NOT EDIT." header (not skeletonised)
+	Generated []string
 }
 
 func recvName(fd *ast.FuncDecl) string {
@@ -178,14 +180,20 @@ func analyse(repo string) (*analysis, error) {
 				an.Skipped = append(an.Skipped, l.Names[i])
 				continue
 			}
+			if ast.IsGenerated(file) {
+				// stringer output: its table lookups are guarded by the generated range test
+				an.Generated = append(an.Generated, l.Names[i])
+				continue
+			}
 			for _, d := range file.Decls {
 				fd, ok := d.(*ast.FuncDecl)
 				if !ok || fd.Body == nil {
 					continue
 				}
 				base := pkgName + "." + recvName(fd) + fd.Name.Name
+				di := x.declFacts(fd)
 				add := func(name string, ft *ast.FuncType, recv *ast.FieldList, body *ast.BlockStmt) {
-					sk, nv := x.translateFunc(name, ft, recv, body)
+					sk, nv := x.translateFunc(name, di, ft, recv, body)
 					p := fset.Position(body.Pos())
 					an.Funcs = append(an.Funcs, &funcSkel{Name: name, File: l.Names[i], Line: p.Line,
 						End: fset.Position(body.End()).Line, Skel: sk, NVars: nv})
